@@ -631,7 +631,7 @@ class Licensing(boolean.BooleanAlgebra):
         if self.advanced_tokenizer is not None:
             return self.advanced_tokenizer
 
-        self.advanced_tokenizer = tokenizer = AdvancedTokenizer()
+        tokenizer = AdvancedTokenizer()
 
         add_item = tokenizer.add
         for keyword in KEYWORDS:
@@ -651,6 +651,8 @@ class Licensing(boolean.BooleanAlgebra):
                     add_item(alias, symbol)
 
         tokenizer.make_automaton()
+        # only publish a fully built tokenizer: other threads may use it
+        self.advanced_tokenizer = tokenizer
         return tokenizer
 
     def advanced_tokenizer(self, expression):
